@@ -318,8 +318,13 @@ func (c *conn) closeChannels() {
 	}
 	c.channelsClosed.Store(true)
 
-	c.channels.Range(func(_ bin.Bin128, ch internalChannel) bool {
-		ch.free()
+	// Remove and free channels, a channel must be freed only by the one who removes it,
+	// the send/receive loops can remove and free closed channels concurrently.
+	c.channels.Range(func(id bin.Bin128, _ internalChannel) bool {
+		ch, ok := c.channels.Delete(id)
+		if ok {
+			ch.free()
+		}
 		return true
 	})
 }
@@ -340,10 +345,13 @@ func (c *conn) createChannel() (Channel, bool, status.Status) {
 
 	// Free on error
 	done := false
+	removed := true
 	defer func() {
 		if !done {
 			ch.Free()
-			ch.free()
+			if removed {
+				ch.free()
+			}
 		}
 	}()
 
@@ -353,7 +361,8 @@ func (c *conn) createChannel() (Channel, bool, status.Status) {
 
 	// Check again
 	if c.channelsClosed.Load() {
-		c.channels.Delete(id)
+		// The channel is already freed when removed by closeChannels.
+		_, removed = c.channels.Delete(id)
 		return nil, false, statusConnClosed
 	}
 
